@@ -32,6 +32,7 @@ type fullCase struct {
 	policy    string
 	planted   map[string]*rc.Value // "db/key" -> pre-existing value
 	failKey   string               // key whose restore the target answers with an injected error ("" = none)
+	failFired bool                 // the injected error was actually delivered
 	failNth   int                  // which restoring command for failKey gets the error (1 = the first, 2 = the retry after DEL)
 	noReplace bool                 // the target is configured as not supporting RESTORE ... REPLACE (rewrite = DEL + RESTORE)
 	failMsg   string
@@ -83,7 +84,9 @@ func (fc *fullCase) expected(slotFilter bool) (keys []expKey, scripts int, mustF
 				continue
 			}
 		}
-		if string(r.Key) == fc.failKey {
+		if string(r.Key) == fc.failKey && (fc.failNth <= 1 || fc.failFired) {
+			// (an error aimed at the second attempt is only delivered on routes that make one: RESTORE, BUSYKEY, DEL,
+			// RESTORE - the element-wise route deletes first and restores once)
 			mustFail = true
 		}
 		keys = append(keys, expKey{db, string(r.Key), r.Val, r.ExpireAt})
@@ -280,6 +283,7 @@ func injectFailure(c *core.Ctx, fc *fullCase, tgt *modelredis.Server) {
 				return "" // the first attempt is answered normally (BUSYKEY for the existing key)
 			}
 			c.Fault("target_error_reply")
+			fc.failFired = true
 			if fc.failNth == 2 {
 				c.Probe("error_on_second_restore")
 			}
